@@ -92,7 +92,15 @@ type Contracts struct {
 	Ghosts    map[string]*GhostVar
 	Lemmas    []*Lemma
 	Dispatch  []Dispatch
+	OnAlloc   []OnAlloc
 	Errors    []string
+}
+
+// OnAlloc: fact assumed about a freshly allocated zero value of a type (p is bound to the new pointer)
+type OnAlloc struct {
+	Type    TypeExpr
+	E       Expr
+	PkgPath string
 }
 
 // Dispatch: interface method I.M invoked on dynamic type T is the concrete method T.M
@@ -110,7 +118,7 @@ var keywords = map[string]bool{
 	"func": true, "spec": true, "axiom": true, "ghost": true, "lemma": true, "package": true,
 	"requires": true, "ensures": true, "let": true, "modifies": true, "nopanic": true, "overflow": true,
 	"loop": true, "invariant": true, "decreases": true, "trusted": true, "props": true, "pure": true,
-	"purefn": true, "maypanic": true, "opt": true, "dispatch": true, "assume": true, "uses": true,
+	"purefn": true, "maypanic": true, "opt": true, "dispatch": true, "assume": true, "uses": true, "onalloc": true,
 }
 
 type rawItem struct {
@@ -259,6 +267,20 @@ func (cs *Contracts) LoadFile(path string, pkgPath string, external bool) {
 			}
 			ps.toks = toks
 			cs.Ghosts[f[1]] = &GhostVar{Name: f[1], T: ps.typeExpr(), PkgPath: pkgPath}
+		case "onalloc":
+			cur, curLoop, curLemma, curAxiom = nil, nil, nil, nil
+			j := strings.Index(it.text, ":")
+			if j < 0 {
+				fail(it, "expected 'onalloc Type: formula'")
+				continue
+			}
+			toks, err := lex(strings.TrimSpace(it.text[:j]))
+			if err != nil {
+				fail(it, "%v", err)
+				continue
+			}
+			ps := &parser{toks: toks}
+			cs.OnAlloc = append(cs.OnAlloc, OnAlloc{Type: ps.typeExpr(), E: parse(it, it.text[j+1:]), PkgPath: pkgPath})
 		case "dispatch":
 			// dispatch Iface.Method on ImplType
 			f := strings.Fields(it.text)
